@@ -533,6 +533,10 @@ def prepare_main(name=None,
     streamin = args.input
     if isinstance(streamin, str):
         streamin = codecs.open(streamin, 'r', encoding='utf8')
+    elif streamin is sys.stdin and hasattr(streamin, 'buffer'):
+        # read the standard input exactly as a file is read (utf8
+        # encoded, with the same line boundaries)
+        streamin = codecs.getreader('utf8')(streamin.buffer)
 
     # open the output stream from parsed arguments
     streamout = args.output
